@@ -38,7 +38,7 @@ func (s *verifMemStore) Initialize(configuration util.Configuration, prefix stri
 }
 func (s *verifMemStore) InsertEntry(ctx context.Context, e *Entry) error {
 	s.ops = append(s.ops, "insert "+string(e.FullPath))
-	if len(s.entries) >= VerifRunaway {
+	if len(s.entries) >= VhRunaway {
 		panic("verif: runaway insertion of entries")
 	}
 	s.entries[string(e.FullPath)] = verifCloneEntry(e)
@@ -63,8 +63,9 @@ func (s *verifMemStore) DeleteEntry(ctx context.Context, p util.FullPath) error 
 }
 func (s *verifMemStore) DeleteFolderChildren(ctx context.Context, p util.FullPath) error {
 	s.ops = append(s.ops, "deletechildren "+string(p))
+	// like the embedded stores: the direct children only
 	for _, k := range s.sortedKeys() {
-		if strings.HasPrefix(k, string(p)+"/") {
+		if d, _ := util.FullPath(k).DirAndName(); d == string(p) {
 			delete(s.entries, k)
 		}
 	}
